@@ -140,8 +140,17 @@ class Exec(Interp):
         if isinstance(target, ast.Name):
             k = self.declared_kind(st, target.id)
             if k is not None:
-                value = self.coerce(st, value, k, node)
+                lazy = self.lazy_empty
+                self.lazy_empty = False
+                try:
+                    value = self.coerce(st, value, k, node)
+                finally:
+                    self.lazy_empty = lazy
             fr.env[target.id] = value
+            c = fr.contract
+            if c is not None and target.id in c.assume_after and len(st.frames) == 1 and not self.spec_mode:
+                ctx = getattr(st, "fn_ctx", None)
+                self.assume(st, self.spec_eval(st, c.assume_after[target.id], ctx))
             return
         if isinstance(target, (ast.Tuple, ast.List)):
             if isinstance(value.kind, KTuple):
@@ -434,8 +443,8 @@ class Exec(Interp):
         kk = z3.Const("ks_k", sort_of(d.kind.k))
         self.assume(st, n == self.harr(st, sz)[d.term])
         self.assume(st, n >= 0)
-        self.assume(st, z3.ForAll([i], z3.Implies(z3.And(0 <= i, i < n), z3.And(has[seq[i]], pos[seq[i]] == i)), patterns=[seq[i]]))
-        self.assume(st, z3.ForAll([kk], z3.Implies(has[kk], z3.And(0 <= pos[kk], pos[kk] < n, seq[pos[kk]] == kk)), patterns=[pos[kk]]))
+        self.assume(st, qforall([i], z3.Implies(z3.And(0 <= i, i < n), z3.And(has[seq[i]], pos[seq[i]] == i)), patterns=[seq[i]]))
+        self.assume(st, qforall([kk], z3.Implies(has[kk], z3.And(0 <= pos[kk], pos[kk] < n, seq[pos[kk]] == kk)), patterns=[pos[kk]]))
         cache[key] = l
         st.ghost.setdefault("keypos", {})[l.term.get_id()] = pos
         return l
@@ -456,8 +465,8 @@ class Exec(Interp):
         kk = z3.Const("ks_e", sort_of(s.kind.elem))
         self.assume(st, n == self.harr(st, sz)[s.term])
         self.assume(st, n >= 0)
-        self.assume(st, z3.ForAll([i], z3.Implies(z3.And(0 <= i, i < n), z3.And(has[seq[i]], pos[seq[i]] == i)), patterns=[seq[i]]))
-        self.assume(st, z3.ForAll([kk], z3.Implies(has[kk], z3.And(0 <= pos[kk], pos[kk] < n, seq[pos[kk]] == kk)), patterns=[pos[kk]]))
+        self.assume(st, qforall([i], z3.Implies(z3.And(0 <= i, i < n), z3.And(has[seq[i]], pos[seq[i]] == i)), patterns=[seq[i]]))
+        self.assume(st, qforall([kk], z3.Implies(has[kk], z3.And(0 <= pos[kk], pos[kk] < n, seq[pos[kk]] == kk)), patterns=[pos[kk]]))
         return l
 
     def check_invariants(self, st, spec: LoopSpec, node, phase, ctx):
@@ -758,20 +767,16 @@ class Exec(Interp):
                         pass
                 ctx.result = res
             whens = []
+            raw = []
             for cs in c.cases:
                 if cs.when is None:
-                    w = z3.Not(z3.Or(whens)) if whens else z3.BoolVal(True)
+                    w = z3.BoolVal(True)
                 else:
-                    w = self.spec_eval(st, cs.when, SpecCtx(st.heap0, pre_env, pre_nref=st.nref0))
-                    saved = st.heap
-                    st.heap = dict(st.heap0)
-                    try:
-                        w = self.spec_eval(st, cs.when, SpecCtx(st.heap0, pre_env, pre_nref=st.nref0))
-                    finally:
-                        for k2, v2 in st.heap.items():
-                            saved.setdefault(k2, v2)
-                        st.heap = saved
-                whens.append(w)
+                    w = self.eval_pre(st, cs.when, pre_env)
+                # cases are ordered: the first one whose `when` holds applies
+                eff = z3.And(w, z3.Not(z3.Or(raw))) if raw else w
+                raw.append(w)
+                whens.append(z3.simplify(eff))
             if not any(cs.when is None for cs in c.cases):
                 st.oblige(q + ":cases-exhaustive", z3.Or(whens), kind="cases-exhaustive", assume_after=False)
             desc = "return" if outcome.kind == "return" else "raise %s at %s" % (outcome.exc.cls.__name__, outcome.exc.where)
@@ -823,11 +828,25 @@ class Exec(Interp):
         finally:
             fr.env = saved_env
 
+    def eval_pre(self, st, clause, pre_env):
+        """Evaluate a clause in the PRE state (heap at entry, parameters at entry)."""
+        saved = st.heap
+        st.heap = dict(st.heap0)
+        saved_nref = st.nref
+        st.nref = st.nref0
+        try:
+            return self.spec_eval(st, clause, SpecCtx(st.heap0, pre_env, pre_nref=st.nref0))
+        finally:
+            for k2, v2 in st.heap.items():
+                saved.setdefault(k2, v2)
+            st.heap = saved
+            st.nref = saved_nref
+
     def frame_goal(self, st, name, a0, arr):
         """Objects allocated before the call are unchanged in this heap array (fresh objects are
         the callee's own)."""
         r = z3.Int("fr_r")
-        return z3.ForAll([r], z3.Implies(z3.And(0 <= r, r < st.nref0), arr[r] == a0[r]))
+        return qforall([r], z3.Implies(z3.And(0 <= r, r < st.nref0), arr[r] == a0[r]))
 
 
 def _as_load(t):
@@ -847,3 +866,115 @@ def _ann_optional(ann):
     except Exception:
         return False
     return "None" in s or "Optional" in s
+
+
+# ---------------------------------------------------------------------------------------------
+# additional engine services used by the library table
+def _nonnull_or_typeerror(self, st, v, node=None):
+    c = z3.simplify(v.term != 0)
+    if z3.is_true(c):
+        return
+    if not st.branch(c, "nonnull"):
+        self.raise_(TypeError, node)
+
+
+def _assign_pure(self, st, target, value):
+    fr = self.frame(st)
+    if isinstance(target, ast.Name):
+        fr.env[target.id] = value
+        return
+    if isinstance(target, (ast.Tuple, ast.List)) and isinstance(value.kind, KTuple):
+        for t, it in zip(target.elts, self.tuple_items(value)):
+            _assign_pure(self, st, t, it)
+        return
+    raise Unsupported("comprehension target")
+
+
+def _dyn_class_arr(self, st):
+    name = "G:dynclass"
+    self._heap_kinds.setdefault(name, KInt)
+    return self.harr(st, name)
+
+
+def _class_id(self, cls):
+    ids = self.class_ids
+    if cls not in ids:
+        ids[cls] = len(ids) + 1
+    return ids[cls]
+
+
+def _dyn_isinstance(self, st, v, cls):
+    """Dynamic class test through the ghost class tag of the object (G:dynclass)."""
+    arr = _dyn_class_arr(self, st)
+    tag = arr[v.term]
+    subs = [c for c in self.reg.classes.values() if isinstance(c, type) and issubclass(c, cls)]
+    if cls not in subs:
+        subs.append(cls)
+    return z3.Or([tag == _class_id(self, c) for c in subs])
+
+
+def _set_dyn_class(self, st, obj, cls):
+    arr = _dyn_class_arr(self, st)
+    st.heap["G:dynclass"] = z3.Store(arr, obj.term, z3.IntVal(_class_id(self, cls)))
+
+
+def _deepcopy(self, st, v, node=None):
+    k = v.kind
+    if k in (KInt, KFloat, KStr, KBool, KNone, KVal) or isinstance(k, (KEnum, KOpt, KTuple)):
+        # nested JSON-like values (Val) are treated as immutable: stated assumption
+        return v
+    if k is KConst:
+        return v
+    if isinstance(k, KRef):
+        if k.cls in self.reg.immutable:
+            return v
+        h = self.reg.specfuncs.get("deepcopy:" + k.cls)
+        if h is not None:
+            return h(self, st, v, node)
+        return self.deepcopy_object(st, v, node)
+    if isinstance(k, KList):
+        self.check_container_guard(st, v, node, False)
+        if is_refkind(k.elem) and not (isinstance(k.elem, KRef) and k.elem.cls in self.reg.immutable):
+            h = self.reg.specfuncs.get("deepcopy_list:" + k.elem.key())
+            if h is None:
+                raise Unsupported("deepcopy of %s" % k)
+            return h(self, st, v, node)
+        return self.copy_list(st, v)
+    if isinstance(k, KDict):
+        self.check_container_guard(st, v, node, False)
+        if is_refkind(k.v) and not (isinstance(k.v, KRef) and k.v.cls in self.reg.immutable):
+            raise Unsupported("deepcopy of %s" % k)
+        return self.copy_dict(st, v)
+    raise Unsupported("deepcopy of %s" % k)
+
+
+def _deepcopy_object(self, st, obj, node=None):
+    """Fresh object; scalar fields equal; container fields replaced by fresh (deep) copies.
+    None stays None."""
+    if z3.is_true(z3.simplify(obj.term == 0)):
+        return obj
+    out = self.copy_object(st, obj)
+    cls = self.class_by_name(obj.kind.cls)
+    names = [c.__name__ for c in cls.__mro__] if cls is not None else [obj.kind.cls]
+    seen = set()
+    for nm in names:
+        for f in self.reg.schemas.get(nm, {}):
+            if f in seen:
+                continue
+            seen.add(f)
+            name, kind = self.fname(obj.kind.cls, f)
+            if isinstance(kind, (KList, KDict, KSet)) or (isinstance(kind, KRef) and kind.cls not in self.reg.immutable):
+                cur = SV(kind, self.harr(st, name)[out.term])
+                # a None container stays None: copy conditionally
+                fresh = _deepcopy(self, st, cur, node)
+                arr = self.harr(st, name)
+                st.heap[name] = z3.Store(arr, out.term, z3.If(cur.term == 0, 0, fresh.term) if kind.nullable else fresh.term)
+    return out
+
+
+Exec.nonnull_or_typeerror = _nonnull_or_typeerror
+Exec.assign_pure = _assign_pure
+Exec.dyn_isinstance = _dyn_isinstance
+Exec.set_dyn_class = _set_dyn_class
+Exec.deepcopy = _deepcopy
+Exec.deepcopy_object = _deepcopy_object
